@@ -364,10 +364,10 @@ func symptom(t T, exp, got val, others []val) string {
 		if exp.Lo == got.Lo {
 			return "same"
 		}
-		if got.Lo == exp.Lo&0xFFFFFFFF {
+		if got.Lo == exp.Lo&0xFFFFFFFF && got.Lo != 0 {
 			return "truncated-to-32-bits"
 		}
-		if got.Lo == uint64(int64(int32(uint32(exp.Lo)))) {
+		if got.Lo == uint64(int64(int32(uint32(exp.Lo)))) && got.Lo != 0 {
 			return "low-half-sign-extended"
 		}
 	case wenc.V128:
@@ -382,7 +382,7 @@ func symptom(t T, exp, got val, others []val) string {
 		}
 	}
 	for _, o := range others {
-		if o == got && o != exp {
+		if o == got && o != exp && (got.Lo != 0 || got.Hi != 0) {
 			return "value-of-other-position"
 		}
 	}
